@@ -435,6 +435,60 @@ fn bracketings(xs: &[usize]) -> Vec<Tree> {
 }
 fn tree_text(t: &Tree) -> String { match t { Tree::Leaf(i) => format!("{}", i + 1), Tree::Node(l, r) => format!("({} {})", tree_text(l), tree_text(r)) } }
 
+/// One `Link` record for a set of source files (text, debug flag): every order and bracketing (at most 14,
+/// chosen at random beyond that), every intermediate and final object with its load result, round trips and
+/// debug queries.  Returns false (and emits nothing) if a file does not assemble.
+fn link_set_record(rng: &mut StdRng, run: u64, set: &[(String, bool)], out: &mut Out) -> bool {
+    let mut files: Vec<Value> = vec![];
+    let mut objs: Vec<ObjectFile> = vec![];
+    let mut ok = true;
+    for (text, dbg) in set {
+        let (rec, o) = asm_record(rng, run, text, *dbg, None, false);
+        match o { Some(o) => objs.push(o), None => { ok = false; } }
+        files.push(json!({"src": rec["src"], "prog": rec["prog"], "dbg": rec["dbg"], "res": rec["res"]}));
+    }
+    if !ok { return false; } // a file that does not assemble (clash inside one file): skip
+    let nf = objs.len();
+    // addresses to probe after loading: every relocation entry of every file
+    let mut probe: Vec<u16> = vec![];
+    for o in &objs { if let Some(st) = o.symbol_table() { probe.extend(st.verif_rel_iter().map(|(a, _)| a)); } }
+    probe.sort(); probe.dedup();
+    // object table: files first, then link results (memoized by operand pair)
+    let mut table: Vec<ObjectFile> = objs.clone();
+    let mut steps: Vec<Value> = vec![];
+    let mut memo: std::collections::HashMap<(usize, usize), Option<usize>> = std::collections::HashMap::new();
+    let mut finals: Vec<Value> = vec![];
+    let mut exprs: Vec<Tree> = vec![];
+    for p in permutations(nf) { exprs.extend(bracketings(&p)); }
+    if exprs.len() > 14 { for i in (1..exprs.len()).rev() { let j = rng.random_range(0..=i); exprs.swap(i, j); } exprs.truncate(14); }
+    fn eval(t: &Tree, table: &mut Vec<ObjectFile>, steps: &mut Vec<Value>, memo: &mut std::collections::HashMap<(usize, usize), Option<usize>>) -> Option<usize> {
+        match t {
+            Tree::Leaf(i) => Some(*i),
+            Tree::Node(l, r) => {
+                let a = eval(l, table, steps, memo)?;
+                let b = eval(r, table, steps, memo)?;
+                if let Some(x) = memo.get(&(a, b)) { return *x; }
+                let (oa, ob) = (table[a].clone(), table[b].clone());
+                let res = js::guard(move || ObjectFile::link(oa, ob));
+                let outi = match res {
+                    Err(()) => { steps.push(json!({"a": a + 1, "b": b + 1, "res": "panic", "panic": 1, "out": 0, "err": err_none()})); None }
+                    Ok(Err(e)) => { steps.push(json!({"a": a + 1, "b": b + 1, "res": kind_name(&e.kind), "panic": 0, "out": 0, "err": err_json(&e)})); None }
+                    Ok(Ok(o)) => { table.push(o); steps.push(json!({"a": a + 1, "b": b + 1, "res": "ok", "panic": 0, "out": table.len(), "err": err_none()})); Some(table.len() - 1) }
+                };
+                memo.insert((a, b), outi);
+                outi
+            }
+        }
+    }
+    for t in &exprs {
+        let r = eval(t, &mut table, &mut steps, &mut memo);
+        finals.push(json!({"expr": tree_text(t), "out": r.map(|x| x + 1).unwrap_or(0)}));
+    }
+    let objs_json: Vec<Value> = table.iter().map(|o| json!({"obj": js::obj(o), "load": load_json(o, &probe), "rt": rt_json(o), "dbgq": dbgq_json(o)})).collect();
+    out.emit(json!({"ev": "Link", "run": run, "nf": nf, "files": files, "objs": objs_json, "steps": steps, "finals": finals, "panic": 0}));
+    true
+}
+
 pub fn emit_link(a: &Args, out: &mut Out) {
     asmgen::EXOTIC_LABELS.with(|e| e.set(true));
     let mut rng = rng_for(a, 0x11C);
@@ -445,56 +499,40 @@ pub fn emit_link(a: &Args, out: &mut Out) {
         run += 1;
         let progs = gen_linkset(&mut rng, a.thorough());
         let all_dbg = a.get_u64("alldbg", 0) == 1 || chance(&mut rng, 65);
-        let mut files: Vec<Value> = vec![];
-        let mut objs: Vec<ObjectFile> = vec![];
-        let mut ok = true;
-        for p in &progs {
-            let text = text_of(p, &mut rng);
-            let dbg = all_dbg || chance(&mut rng, 50);
-            let (rec, o) = asm_record(&mut rng, run, &text, dbg, None, false);
-            match o { Some(o) => objs.push(o), None => { ok = false; } }
-            files.push(json!({"src": rec["src"], "prog": rec["prog"], "dbg": rec["dbg"], "res": rec["res"]}));
-        }
-        if !ok { continue; } // the generator produced a file that does not assemble (clash inside one file): skip
-        made += 1;
-        let nf = objs.len();
-        // addresses to probe after loading: every relocation entry of every file
-        let mut probe: Vec<u16> = vec![];
-        for o in &objs { if let Some(st) = o.symbol_table() { probe.extend(st.verif_rel_iter().map(|(a, _)| a)); } }
-        probe.sort(); probe.dedup();
-        // object table: files first, then link results (memoized by operand pair)
-        let mut table: Vec<ObjectFile> = objs.clone();
-        let mut steps: Vec<Value> = vec![];
-        let mut memo: std::collections::HashMap<(usize, usize), Option<usize>> = std::collections::HashMap::new();
-        let mut finals: Vec<Value> = vec![];
-        let mut exprs: Vec<Tree> = vec![];
-        for p in permutations(nf) { exprs.extend(bracketings(&p)); }
-        if exprs.len() > 14 { for i in (1..exprs.len()).rev() { let j = rng.random_range(0..=i); exprs.swap(i, j); } exprs.truncate(14); }
-        fn eval(t: &Tree, table: &mut Vec<ObjectFile>, steps: &mut Vec<Value>, memo: &mut std::collections::HashMap<(usize, usize), Option<usize>>) -> Option<usize> {
-            match t {
-                Tree::Leaf(i) => Some(*i),
-                Tree::Node(l, r) => {
-                    let a = eval(l, table, steps, memo)?;
-                    let b = eval(r, table, steps, memo)?;
-                    if let Some(x) = memo.get(&(a, b)) { return *x; }
-                    let (oa, ob) = (table[a].clone(), table[b].clone());
-                    let res = js::guard(move || ObjectFile::link(oa, ob));
-                    let outi = match res {
-                        Err(()) => { steps.push(json!({"a": a + 1, "b": b + 1, "res": "panic", "panic": 1, "out": 0, "err": err_none()})); None }
-                        Ok(Err(e)) => { steps.push(json!({"a": a + 1, "b": b + 1, "res": kind_name(&e.kind), "panic": 0, "out": 0, "err": err_json(&e)})); None }
-                        Ok(Ok(o)) => { table.push(o); steps.push(json!({"a": a + 1, "b": b + 1, "res": "ok", "panic": 0, "out": table.len(), "err": err_none()})); Some(table.len() - 1) }
-                    };
-                    memo.insert((a, b), outi);
-                    outi
-                }
-            }
-        }
-        for t in &exprs {
-            let r = eval(t, &mut table, &mut steps, &mut memo);
-            finals.push(json!({"expr": tree_text(t), "out": r.map(|x| x + 1).unwrap_or(0)}));
-        }
-        let objs_json: Vec<Value> = table.iter().map(|o| json!({"obj": js::obj(o), "load": load_json(o, &probe), "rt": rt_json(o), "dbgq": dbgq_json(o)})).collect();
-        out.emit(json!({"ev": "Link", "run": run, "nf": nf, "files": files, "objs": objs_json, "steps": steps, "finals": finals, "panic": 0}));
+        let set: Vec<(String, bool)> = progs.iter().map(|p| { let text = text_of(p, &mut rng); let dbg = all_dbg || chance(&mut rng, 50); (text, dbg) }).collect();
+        if link_set_record(&mut rng, run, &set, out) { made += 1; }
+    }
+}
+
+/// `lc3v replay link hist=<file> ops=<file>`: ops lists the statement templates, `files=<file>` the files of
+/// MC_Link as template sequences; a history is a flat list f1, d1, f2, d2, ... (file number, debug 0/1).  Selections
+/// that differ only in order are replayed once (the record holds every order and bracketing).
+pub fn replay_link(a: &Args, out: &mut Out) {
+    let mut rng = rng_for(a, 0x11D);
+    let cps = |v: &Value| -> String { v.as_array().unwrap().iter().map(|c| char::from_u32(c.as_u64().unwrap() as u32).unwrap()).collect() };
+    let lines: Vec<Value> = std::fs::read_to_string(a.get_str("ops", "")).expect("ops file").lines().filter(|l| !l.trim().is_empty())
+        .map(|l| serde_json::from_str(l).expect("ops line")).collect();
+    let tpls: Vec<GStmt> = lines.iter().filter(|v| v.get("n").is_some()).map(|v| {
+        let n = &v["n"];
+        let mut g = GStmt::new(n["k"].as_str().unwrap(), n["a"].as_i64().unwrap(), n["b"].as_i64().unwrap(), n["c"].as_i64().unwrap(), n["m"].as_i64().unwrap());
+        g.lbl = cps(&n["lbl"]); g.s = cps(&n["str"]);
+        for l in v["labels"].as_array().unwrap() { g.labels.push(cps(l)); }
+        g
+    }).collect();
+    let files: Vec<Vec<usize>> = lines.iter().filter_map(|v| v.get("file")).map(|f| f.as_array().unwrap().iter().map(|x| x.as_u64().unwrap() as usize).collect()).collect();
+    let texts: Vec<String> = files.iter().map(|ts| { let p: Vec<GStmt> = ts.iter().map(|&t| tpls[t - 1].clone()).collect(); asmgen::render(&mut rng, &p, &Style::plain()).text }).collect();
+    let hist = std::fs::read_to_string(a.get_str("hist", "")).expect("hist file");
+    let mut seen = std::collections::HashSet::new();
+    let mut run = 0u64;
+    for line in hist.lines() {
+        if line.trim().is_empty() { continue; }
+        let h: Vec<usize> = serde_json::from_str(line).expect("history");
+        let mut sel: Vec<(usize, bool)> = h.chunks(2).map(|c| (c[0], c[1] == 1)).collect();
+        sel.sort();
+        if !seen.insert(sel.clone()) { continue; }
+        run += 1;
+        let set: Vec<(String, bool)> = sel.iter().map(|&(f, d)| (texts[f - 1].clone(), d)).collect();
+        link_set_record(&mut rng, run, &set, out);
     }
 }
 
